@@ -28,9 +28,9 @@ fn ipv4_case(proto: Option<u8>, m: usize, n: usize, lists: bool) {
     let a4 = any_ip4();
     let a6 = any_ip6();
     let d4 = any_ip4();
+    let _ = a6;
     let mut s_set = HashSet::new();
     s_set.insert(IpAddr::V4(a4));
-    s_set.insert(IpAddr::V6(a6));
     let mut d_set = HashSet::new();
     d_set.insert(IpAddr::V4(d4));
     // lists == false: the scope lists are absent (concretely), so that the well-formedness
@@ -229,7 +229,7 @@ fn c04_ipv4_icmp_11() {
 //# tier: quick
 //# encodes: layer_3::ipv4::repl
 //# encodes: pnet_packet checksum helpers (icmp::checksum, tcp::ipv4_checksum, udp::ipv4_checksum)
-//# bounds: 20-byte IPv4 request header fully symbolic (version, IHL, total length, flags, addresses may lie freely), protocol = any protocol outside {1,6,17}, 4 transport bytes in the request; layer-4 reply of 8 arbitrary bytes or silence; self-IP list absent or {a4,a6} symbolic; deny list absent or {d4} symbolic
+//# bounds: 20-byte IPv4 request header fully symbolic (version, IHL, total length, flags, addresses may lie freely), protocol = any protocol outside {1,6,17}, 4 transport bytes in the request; layer-4 reply of 8 arbitrary bytes or silence; self-IP list absent or {a4} symbolic; deny list absent or {d4} symbolic
 //# stubs: layer_4::{icmpv4,tcp,udp}::repl -> None or a transport packet of 8 arbitrary bytes (UDP: length field = 8, the lemma of c03_udp_*)
 //# out: transport replies of other lengths (the checksum loop is uniform in the length; ip_len as u16 can only truncate above 65535 bytes); larger address sets (membership is the container contract)
 
@@ -247,7 +247,7 @@ fn c02_ipv4_other_proto() {
 //# tier: quick
 //# encodes: layer_3::ipv4::repl
 //# encodes: pnet_packet checksum helpers (icmp::checksum, tcp::ipv4_checksum, udp::ipv4_checksum)
-//# bounds: 20-byte IPv4 request header fully symbolic (version, IHL, total length, flags, addresses may lie freely), protocol = TCP, 19 transport bytes in the request; layer-4 reply of 20 arbitrary bytes or silence; self-IP list absent or {a4,a6} symbolic; deny list absent or {d4} symbolic
+//# bounds: 20-byte IPv4 request header fully symbolic (version, IHL, total length, flags, addresses may lie freely), protocol = TCP, 19 transport bytes in the request; layer-4 reply of 20 arbitrary bytes or silence; self-IP list absent or {a4} symbolic; deny list absent or {d4} symbolic
 //# stubs: layer_4::{icmpv4,tcp,udp}::repl -> None or a transport packet of 20 arbitrary bytes (UDP: length field = 20, the lemma of c03_udp_*)
 //# out: transport replies of other lengths (the checksum loop is uniform in the length; ip_len as u16 can only truncate above 65535 bytes); larger address sets (membership is the container contract)
 //# cover: transport header too short
@@ -265,7 +265,7 @@ fn c01_ipv4_tcp_short() {
 //# tier: thorough
 //# encodes: layer_3::ipv4::repl
 //# encodes: pnet_packet checksum helpers (icmp::checksum, tcp::ipv4_checksum, udp::ipv4_checksum)
-//# bounds: 20-byte IPv4 request header fully symbolic (version, IHL, total length, flags, addresses may lie freely), protocol = UDP, 7 transport bytes in the request; layer-4 reply of 8 arbitrary bytes or silence; self-IP list absent or {a4,a6} symbolic; deny list absent or {d4} symbolic
+//# bounds: 20-byte IPv4 request header fully symbolic (version, IHL, total length, flags, addresses may lie freely), protocol = UDP, 7 transport bytes in the request; layer-4 reply of 8 arbitrary bytes or silence; self-IP list absent or {a4} symbolic; deny list absent or {d4} symbolic
 //# stubs: layer_4::{icmpv4,tcp,udp}::repl -> None or a transport packet of 8 arbitrary bytes (UDP: length field = 8, the lemma of c03_udp_*)
 //# out: transport replies of other lengths (the checksum loop is uniform in the length; ip_len as u16 can only truncate above 65535 bytes); larger address sets (membership is the container contract)
 //# cover: transport header too short
@@ -283,7 +283,7 @@ fn c01_ipv4_udp_short() {
 //# tier: thorough
 //# encodes: layer_3::ipv4::repl
 //# encodes: pnet_packet checksum helpers (icmp::checksum, tcp::ipv4_checksum, udp::ipv4_checksum)
-//# bounds: 20-byte IPv4 request header fully symbolic (version, IHL, total length, flags, addresses may lie freely), protocol = ICMP, 3 transport bytes in the request; layer-4 reply of 8 arbitrary bytes or silence; self-IP list absent or {a4,a6} symbolic; deny list absent or {d4} symbolic
+//# bounds: 20-byte IPv4 request header fully symbolic (version, IHL, total length, flags, addresses may lie freely), protocol = ICMP, 3 transport bytes in the request; layer-4 reply of 8 arbitrary bytes or silence; self-IP list absent or {a4} symbolic; deny list absent or {d4} symbolic
 //# stubs: layer_4::{icmpv4,tcp,udp}::repl -> None or a transport packet of 8 arbitrary bytes (UDP: length field = 8, the lemma of c03_udp_*)
 //# out: transport replies of other lengths (the checksum loop is uniform in the length; ip_len as u16 can only truncate above 65535 bytes); larger address sets (membership is the container contract)
 //# cover: transport header too short
@@ -301,7 +301,7 @@ fn c01_ipv4_icmp_short() {
 //# tier: thorough
 //# encodes: layer_3::ipv4::repl
 //# encodes: pnet_packet checksum helpers (icmp::checksum, tcp::ipv4_checksum, udp::ipv4_checksum)
-//# bounds: 20-byte IPv4 request header fully symbolic (version, IHL, total length, flags, addresses may lie freely), protocol = TCP, 0 transport bytes in the request; layer-4 reply of 20 arbitrary bytes or silence; self-IP list absent or {a4,a6} symbolic; deny list absent or {d4} symbolic
+//# bounds: 20-byte IPv4 request header fully symbolic (version, IHL, total length, flags, addresses may lie freely), protocol = TCP, 0 transport bytes in the request; layer-4 reply of 20 arbitrary bytes or silence; self-IP list absent or {a4} symbolic; deny list absent or {d4} symbolic
 //# stubs: layer_4::{icmpv4,tcp,udp}::repl -> None or a transport packet of 20 arbitrary bytes (UDP: length field = 20, the lemma of c03_udp_*)
 //# out: transport replies of other lengths (the checksum loop is uniform in the length; ip_len as u16 can only truncate above 65535 bytes); larger address sets (membership is the container contract)
 //# cover: transport header too short
@@ -401,7 +401,7 @@ fn c20_ipv4_events_tcp_short() {
 //# props: C02 C03 C01
 //# tier: quick
 //# encodes: layer_3::ipv4::repl (scope filters and address mirroring)
-//# bounds: IPv4 request header symbolic, protocol 17, 8 transport bytes; layer-4 reply of 8 arbitrary bytes or silence; self-IP list absent or {a4,a6} symbolic; deny list absent or one symbolic address; transport checksums are NOT asserted here (decided by c04_ipv4_*)
+//# bounds: IPv4 request header symbolic, protocol 17, 8 transport bytes; layer-4 reply of 8 arbitrary bytes or silence; self-IP list absent or {a4} symbolic; deny list absent or one symbolic address; transport checksums are NOT asserted here (decided by c04_ipv4_*)
 //# stubs: layer-4 entry points -> None or a transport packet of 8 arbitrary bytes
 //# cover: reply emitted
 //# cover: dropped: destination not in self-IP list
@@ -420,7 +420,7 @@ fn c02_ipv4_scope_udp() {
 //# props: C02 C03 C01
 //# tier: thorough
 //# encodes: layer_3::ipv4::repl (scope filters and address mirroring)
-//# bounds: IPv4 request header symbolic, protocol 1, 8 transport bytes; layer-4 reply of 8 arbitrary bytes or silence; self-IP list absent or {a4,a6} symbolic; deny list absent or one symbolic address; transport checksums are NOT asserted here (decided by c04_ipv4_*)
+//# bounds: IPv4 request header symbolic, protocol 1, 8 transport bytes; layer-4 reply of 8 arbitrary bytes or silence; self-IP list absent or {a4} symbolic; deny list absent or one symbolic address; transport checksums are NOT asserted here (decided by c04_ipv4_*)
 //# stubs: layer-4 entry points -> None or a transport packet of 8 arbitrary bytes
 //# cover: reply emitted
 //# cover: dropped: destination not in self-IP list
@@ -431,4 +431,39 @@ fn c02_ipv4_scope_udp() {
 #[kani::stub(crate::layer_4::udp::repl, crate::verif_util::l4_udp_stub)]
 fn c02_ipv4_scope_icmp() {
     ipv4_case(Some(1), 8, 8, true)
+}
+
+fn ipv4_denied_source() {
+    let mut buf: [u8; 28] = kani::any();
+    let d4: [u8; 4] = kani::any();
+    buf[12] = d4[0]; buf[13] = d4[1]; buf[14] = d4[2]; buf[15] = d4[3];
+    let ip_req = Ipv4Packet::new(&buf[..28]).unwrap();
+    let mut d_set = HashSet::new();
+    d_set.insert(IpAddr::V4(Ipv4Addr::from(d4)));
+    let mut masscanned = ms_plain([0, 0], any_mac());
+    masscanned.remote_ip_deny_list = Some(&d_set);
+    l4_rec().cfg_len = 8;
+    let mut ci = ClientInfo::new();
+    let r = repl(&ip_req, &masscanned, &mut ci);
+    assert!(r.is_none(), "C02: IPv4 packet from a denied source answered");
+    assert!(l4_rec().calls == 0, "C02: IPv4 packet from a denied source reached layer 4");
+    kani::cover!(buf[9] == 1, "denied ICMP dropped");
+    kani::cover!(buf[9] == 17, "denied UDP dropped");
+}
+
+//# harness: c02_ipv4_denied_source
+//# props: C02 C01
+//# tier: quick
+//# encodes: layer_3::ipv4::repl (deny-list filter)
+//# bounds: 20-byte IPv4 header + 8 transport bytes, all symbolic incl. the protocol; deny list = {d4} with d4 symbolic and the packet's source address equal to it; no self-IP list
+//# stubs: layer_4::{icmpv4,tcp,udp}::repl -> contract stubs (must not be reached)
+//# cover: denied ICMP dropped
+//# cover: denied UDP dropped
+#[kani::proof]
+#[kani::unwind(26)]
+#[kani::stub(crate::layer_4::icmpv4::repl, crate::verif_util::l4_icmpv4_stub)]
+#[kani::stub(crate::layer_4::tcp::repl, crate::verif_util::l4_tcp_stub)]
+#[kani::stub(crate::layer_4::udp::repl, crate::verif_util::l4_udp_stub)]
+fn c02_ipv4_denied_source() {
+    ipv4_denied_source()
 }
